@@ -4,29 +4,29 @@ from . import common
 from .cli import cli_family
 from .mcp import mcp_check
 from .det import det_check
-from .cgt import cgt_family, law_family, report_family, calendar_family, fx_family, dsl_family, misc_family, format_family, schwab_family, awards_family, combine, fam_list
+from .cgt import trace_family, cgt_family, law_family, report_family, calendar_family, fx_family, dsl_family, misc_family, format_family, schwab_family, awards_family, combine, fam_list
 
 
 def c01(tier, seed):
-    return combine(fam_list(tier, ['core_q', 'edge_q', 'frac_q', 'split_q', 'split5_q', 'two_split_q'], ['core_t', 'split_t', 'two_q']), 'multi_leg_disposals',
+    return combine(fam_list(tier, ['core_q', 'edge_q', 'frac_q', 'split_q', 'split5_q', 'two_split_q'], ['core_t', 'split_t', 'two_q']) + [trace_family(tier, seed)], 'multi_leg_disposals',
                    'every cell ledger of the family (TLC-enumerated) x base dates; non-trivial = ledgers with a disposal '
                    'identified by two or more legs')
 
 
 def c02(tier, seed):
-    return combine(fam_list(tier, ['core_q', 'frac_q', 'split_q', 'split5_q', 'two_split_q'], ['core_t', 'split_t', 'events_q']), 'covered',
+    return combine(fam_list(tier, ['core_q', 'frac_q', 'split_q', 'split5_q', 'two_split_q'], ['core_t', 'split_t', 'events_q']) + [trace_family(tier, seed)], 'covered',
                    'every cell ledger of the family; non-trivial = accepted (covered) ledgers, on which the three '
                    'conservation equalities are evaluated on the implementation\'s own report')
 
 
 def c03(tier, seed):
-    return combine(fam_list(tier, ['core_q', 'split_q', 'events_q', 'events_split_q'], ['core_t', 'split_t', 'events_t', 'events_split_t']) + [fx_family(tier)], ['covered', 'multi_foreign_field'],
+    return combine(fam_list(tier, ['core_q', 'split_q', 'events_q', 'events_split_q'], ['core_t', 'split_t', 'events_t', 'events_split_t']) + [fx_family(tier), trace_family(tier, seed)], ['covered', 'multi_foreign_field'],
                    'every cell ledger of the family; non-trivial = accepted ledgers (legs + closing cost vs expenditure); '
                    'for ledgers with capital events TLC re-runs the specification on the observed apportionment')
 
 
 def c05(tier, seed):
-    return combine(fam_list(tier, ['core_q', 'frac_q', 'split_q', 'split5_q', 'two_split_q'], ['core_t', 'split_t', 'two_q']), 'uncovered',
+    return combine(fam_list(tier, ['core_q', 'frac_q', 'split_q', 'split5_q', 'two_split_q'], ['core_t', 'split_t', 'two_q']) + [trace_family(tier, seed)], 'uncovered',
                    'every cell ledger of the family, covered or not; non-trivial = uncovered ledgers (must be refused '
                    'naming security and date); covered ones must be accepted')
 
@@ -164,7 +164,7 @@ def c20(tier, seed):
 
 
 def c11(tier, seed):
-    return combine(fam_list(tier, ['events_q', 'events_split_q'], ['events_t', 'events_split_t']), 'with_events',
+    return combine(fam_list(tier, ['events_q', 'events_split_q'], ['events_t', 'events_split_t']) + [trace_family(tier, seed)], 'with_events',
                    'cell ledgers with a capital return / accumulation cell at every position; TLC judges the observed '
                    'per-lot apportionment (never on later acquisitions, sums to the net amount, nothing negative); '
                    'conservation of the amount, s122 refusal of unabsorbable returns, dividend inertness; '
